@@ -185,6 +185,22 @@ fn naming(case: &Value) -> Value {
         if rule == "event" {
             return json!(EventContext::new(&cfg).event_name_to_function(&name));
         }
+        if let Some(vr) = rule.strip_prefix("variant:") {
+            // an enum variant as StructParser::parse_enum records it, through FieldContext::from_field_info
+            let r = RenameRule::from_rename_all_str(vr).expect("rule");
+            let fi = tauri_typegen::FieldInfo {
+                name: name.clone(),
+                rust_type: "enum_variant".to_string(),
+                is_optional: false,
+                is_public: true,
+                validator_attributes: None,
+                serde_rename: None,
+                type_structure: TypeStructure::Custom("enum_variant".to_string()),
+            };
+            let visitor = tauri_typegen::generators::ts::type_visitor::TypeScriptVisitor::new();
+            let fc = FieldContext::new(&cfg).from_field_info(&fi, &Some(r), &visitor);
+            return json!(fc.serialized_name);
+        }
         let r = RenameRule::from_rename_all_str(&rule).expect("rule");
         let a = FieldContext::new(&cfg).compute_field_name(&name, &None, &Some(r));
         let b = CommandContext::new(&cfg).compute_parameter_name(&name, &None, &Some(r));
@@ -206,6 +222,7 @@ fn naming(case: &Value) -> Value {
 }
 
 struct Inv {
+    camel_variants: Vec<String>,
     idents: Vec<String>,
     validate: Vec<String>,
     serde: Vec<String>,
@@ -260,7 +277,14 @@ impl Inv {
                 }
                 syn::Item::Enum(e) => {
                     self.idents.push(e.ident.to_string());
+                    let before = self.serde.len();
                     self.attrs(&e.attrs);
+                    // variants of an enum whose serde attributes mention camelCase (class C15-variant)
+                    if self.serde[before..].iter().any(|t| t.contains("camelCase")) {
+                        for v in e.variants.iter() {
+                            self.camel_variants.push(v.ident.to_string());
+                        }
+                    }
                     for v in e.variants.iter() {
                         self.attrs(&v.attrs);
                         self.idents.push(v.ident.to_string());
@@ -291,11 +315,11 @@ fn inventory(case: &Value) -> Value {
     let h = std::thread::Builder::new().stack_size(256 << 20).spawn(move || {
         match syn::parse_file(&src) {
             Ok(f) => {
-                let mut inv = Inv { idents: vec![], validate: vec![], serde: vec![] };
+                let mut inv = Inv { camel_variants: vec![], idents: vec![], validate: vec![], serde: vec![] };
                 inv.items(&f.items);
                 inv.idents.sort();
                 inv.idents.dedup();
-                json!({"parses": true, "idents": inv.idents, "validate": inv.validate, "serde": inv.serde})
+                json!({"parses": true, "idents": inv.idents, "validate": inv.validate, "serde": inv.serde, "camel_variants": inv.camel_variants})
             }
             Err(e) => json!({"parses": false, "error": e.to_string()}),
         }
